@@ -5562,6 +5562,30 @@ class Sha3_256(Instruction):
         super().__init__()
         self._version: int = 7
 
+    @property
+    def cost(self) -> int:
+        """cost of executing sha3_256 instruction.
+
+        Returns:
+            OpcodeCost of the instruction if the instruction is supported in the
+            contract version. Returns zero if it is not supported.
+
+        Raises:
+            ValueError: Raises value error if self.bb or self.bb.teal are not initialized
+                properly.
+        """
+
+        if self.bb and self.bb.teal:
+            contract_version = self.bb.teal.version
+        else:
+            raise ValueError(
+                "instruction cost is accessed without setting basic block or teal instance."
+            )
+
+        if contract_version >= self._version:
+            return 130
+        return 0
+
 
 class Vrf_verify(Instruction):
     """`vrf_verify s` verify the proof of message against public key.
